@@ -1435,6 +1435,25 @@ bool XMLReader::setEncoding(const XMLCh* const newEncoding)
         }
         else
         {
+            //
+            //  An endian specific UTF-16 or UCS-4 name is only acceptable if
+            //  that family was auto-sensed. If we got this far decoding some
+            //  other kind of encoding, the declaration contradicts the data.
+            //
+            const bool newIsUTF16 = (newBaseEncoding == XMLRecognizer::UTF_16L)
+                                 || (newBaseEncoding == XMLRecognizer::UTF_16B);
+            const bool newIsUCS4  = (newBaseEncoding == XMLRecognizer::UCS_4L)
+                                 || (newBaseEncoding == XMLRecognizer::UCS_4B);
+            const bool curIsUTF16 = (fEncoding == XMLRecognizer::UTF_16L)
+                                 || (fEncoding == XMLRecognizer::UTF_16B);
+            const bool curIsUCS4  = (fEncoding == XMLRecognizer::UCS_4L)
+                                 || (fEncoding == XMLRecognizer::UCS_4B);
+            if ((newIsUTF16 && !curIsUTF16) || (newIsUCS4 && !curIsUCS4))
+            {
+                fMemoryManager->deallocate(inputEncoding);
+                return false;
+            }
+
             // Store the new encoding string since it is just an intrinsic
             fMemoryManager->deallocate(fEncodingStr);
             fEncodingStr = inputEncoding;
